@@ -99,6 +99,7 @@ type Config struct {
 	Tier           int
 	Progress       int
 	NoWitness      bool
+	LazyFP         bool // branches on floating-point conditions fork without a feasibility query; the path is checked once at its end
 }
 
 type Interp struct {
@@ -168,6 +169,7 @@ type Interp struct {
 	modelCache     map[*term.Term]uint64
 	modelBad       map[*term.Term]bool
 	witnessHits    int
+	fpMemo         map[*term.Term]bool
 	observeTerms   []obsTerm
 }
 
@@ -411,6 +413,21 @@ func (it *Interp) branch(c *term.Term) bool {
 	if len(it.trace) > it.cfg.maxDecisions() {
 		panic(boundHit{"decision budget at " + it.where()})
 	}
+	if it.cfg.LazyFP && term.HasFloat(c, it.floatMemo()) {
+		// fork without asking the solver; a path whose model is nil is checked for feasibility at its end
+		if v, ok := it.evalModel(c); ok && !v {
+			it.pushAlt(it.model)
+			it.setModel(nil)
+		} else if ok {
+			it.pushAlt(nil)
+		} else {
+			it.pushAlt(nil)
+			it.setModel(nil)
+		}
+		it.trace = append(it.trace, dec{B: true})
+		it.pushPC(c)
+		return true
+	}
 	vars := it.inputVars()
 	if v, ok := it.evalModel(c); ok {
 		it.witnessHits++
@@ -480,6 +497,13 @@ func (it *Interp) pushAlt(model map[string]uint64) {
 	copy(alt, it.trace)
 	alt[len(it.trace)] = dec{B: false}
 	it.sh.push(alt, model)
+}
+
+func (it *Interp) floatMemo() map[*term.Term]bool {
+	if it.fpMemo == nil {
+		it.fpMemo = map[*term.Term]bool{}
+	}
+	return it.fpMemo
 }
 
 func (it *Interp) setModel(m map[string]uint64) {
@@ -893,6 +917,10 @@ func (it *Interp) runPath(entry *ssa.Function, prefix []dec, model map[string]ui
 					r, m := it.check(nil, it.inputVars())
 					if r == smt.Sat {
 						ins = it.modelInputs(m)
+					} else if r == smt.Unsat && it.cfg.LazyFP {
+						outcome = "pruned: infeasible path (lazy floating-point branches)"
+						it.assertsOK = 0
+						return
 					} else {
 						ins = it.inputs
 					}
@@ -914,6 +942,18 @@ func (it *Interp) runPath(entry *ssa.Function, prefix []dec, model map[string]ui
 			}
 		}()
 		it.callSSA(entry, nil, nil)
+		if it.cfg.LazyFP && it.cfg.Concrete == nil && (it.model == nil || len(it.trace) < len(it.prefix)) {
+			it.stack = it.stack[:0]
+			switch r, m := it.check(nil, it.inputVars()); r {
+			case smt.Unsat:
+				outcome = "pruned: infeasible path (lazy floating-point branches)"
+				it.assertsOK = 0
+			case smt.Sat:
+				it.setModel(m)
+			default:
+				it.noteUnknown("feasibility of a completed path (lazy floating-point branches)")
+			}
+		}
 	}()
 	if outcome != "retry" {
 		break
